@@ -724,7 +724,7 @@ OPTION_SETS = [None,
 
 
 PREFIX_DOCS = [
-    ("#\\#CIF_2.0\ndata_a\n_x 'v'\n_y \"w\"\nloop_\n_p\n_q\n1 'v'\n2 \"w\"\n_l [1 'a' [b]]\n_t {'k':v \"m\":'x'}\n_m '''tq'''\n_n \"\"\"td\"\"\"\nsave_f\n_z\n;text\n;\nsave_\n", [None]),
+    ("#\\#CIF_2.0\ndata_a\n_x 'v'\n_y \"w\"\nloop_\n_p\n_q\n1 'v'\n2 \"w\"\n_l [1 'a' [b]]\n_t {'k':v \"m\":'x'}\n_m '''tq'''\n_n \"\"\"td\"\"\"\nsave_f\n_z\n;text\n;\nloop_ _u _w 1 2\nsave_\n", [None]),
     ("data_b\n_x 'it's'\n_y \"w\"\nloop_ _p _q 1 'v' ? \"w\"\nloop_ _r 'z'", [{"prefer_cif2": -1}, {"prefer_cif2": 1}]),
     ("#\\#CIF_1.1\ndata_c\nsave_f\n_x 'v'\nsave_\n_y\n;\\\nfol\\\nded\n;\n_z [x]\nloop_ _p 1 'v'", [None, {"fold": 1, "prefix": 1}]),
     ("data_d _t {'a':{'b':[1 2 {'c':'d'}]}} loop_ _p _q 'v' [1] \"w\" {'k':'v'}", [{"prefer_cif2": 1}]),
